@@ -12,7 +12,7 @@ import subprocess, sys
 
 # (`peg` / `pegen` are NOT here: for them the two programs are different things — the library's parser and the published
 # grammar — which are only required to agree on formatter outputs; a shrunk string is no longer one)
-TEXT_OPS = {"eparse", "echars", "etruth", "ebudget", "estamp", "epunct", "lparse", "lparseterm", "lfold"}
+TEXT_OPS = {"eparse", "echars", "etruth", "ebudget", "estamp", "epunct", "lparse", "lparseterm", "lfold", "emid"}
 
 
 def _run(cmd, lines, timeout=120):
